@@ -71,6 +71,15 @@ def generate(rng, tier):
     for w in WORDS:
         n += 1
         yield word_scn('word%d' % n, w)
+    # directed: titles and names that differ in case only, under CFGF_NOCASE of the context / without it, with and
+    # without unique titles (a repeated title replaces that section in place)
+    tsub = [Opt('int', b'a', 0, 1), Opt('intl', b'l', 0, b'{5}')]
+    for secflags in (F['MULTI'] | F['TITLE'], F['MULTI'] | F['TITLE'] | F['NO_TITLE_DUPES']):
+        dsch = [Opt('int', b'i', 0, 7), Opt('sec', b't', secflags, None, tsub), Opt('sec', b'One', 0, None, tsub)]
+        for flags in (0, F['NOCASE']):
+            n += 1
+            yield exh_scn('case%d' % n, dsch, flags, [b't abc { a = 1 }\nt ABC { a = 2 }\nt Abc { l += {6} }\n', b't x { a = 1 }\nT x { a = 2 }\nI = 3\n',
+                                                     b'one { a = 4 }\nONE { A = 5 L += {7} }\n', b't "" { }\nt "" { a = 9 }\n', b't q { a = 1 }\nt Q { }\nt q { a = 3 }\n'])
     # 2. random schemas and texts
     nrand = 250 if tier == 'quick' else 5000
     for _ in range(nrand):
